@@ -322,6 +322,17 @@ def _num_ty(a, b, self):
 
 def binop_values(self, op, a, b):
     k = type(op)
+    if type(b).__name__ == "NumStr" and isinstance(a, str) and k is ast.Add and b.base == 2:
+        # "0101" + format(n, "0<w>b"): the binary rendering, of width len(a) + w, of int(a, 2) * 2**w + n
+        from .values import NumStr
+        if a == "":
+            return b
+        if any(ch not in "01" for ch in a):
+            raise Unsupported("concatenation of a non-binary prefix with a bit string")
+        nt = self.to_z3(b.n, "int")
+        if self.path.branch(z3.Or(nt < 0, nt >= 2 ** b.width)):
+            raise Unsupported("bit string wider than its format width")
+        return NumStr(self.wrap(int(a, 2) * 2 ** b.width + nt, "int"), len(a) + b.width, 2)
     if isinstance(a, (PList, PObj, PDict, PSet, NT)) or isinstance(b, (PList, PObj, PSet, PDict, NT)):
         return _binop_objects(self, op, a, b)
     if is_concrete(a) and is_concrete(b) and not isinstance(a, (FuncVal,)) :
